@@ -111,8 +111,9 @@ AcceptViolatesLimits(s, q, s2) ==
         rc2 == IF Has(s2.rc, k) THEN s2.rc[k] ELSE EmptyRc
         shortcut == q.multi /\ q.t \in SeqToSet(rc0.live)
     IN /\ q.kind = "PLACE" /\ q.r = "ACCEPT" /\ ~q.force
-       /\ \/ Len(rc2.trades) > q.maxtrades
-          \/ Len(rc2.live) > q.maxlive
+       \* (a count already above the limit - a forced placement went before - is not this request's doing)
+       /\ \/ (Len(rc2.trades) > q.maxtrades /\ Len(rc2.trades) > Len(rc0.trades))
+          \/ (Len(rc2.live) > q.maxlive /\ Len(rc2.live) > Len(rc0.live))
           \/ (~shortcut /\ rc0.lastr >= 0 /\ s.clock - rc0.lastr < q.reset)
           \/ (~shortcut /\ rc0.lastp >= 0 /\ s.clock - rc0.lastp < q.placereset)
 
